@@ -404,10 +404,17 @@ func valEq(a, b Value) *Term {
 		if !x.valid() || !y.valid() {
 			return bl(x.valid() == y.valid())
 		}
+		if !types.Identical(x.t, y.t) {
+			return tFalse
+		}
 		if x.addr != nil || y.addr != nil {
 			return bl(x.addr == y.addr)
 		}
-		unsupported("comparison of reflect.Value")
+		switch x.v.(type) {
+		case *Value, *mapV, *chanV, *Term, strV:
+			return valEq(x.v, y.v)
+		}
+		unsupported("comparison of reflect.Value of type %s", x.t)
 	}
 	panic(fmt.Sprintf("valEq %T %T", a, b))
 }
